@@ -31,3 +31,14 @@ Definition WalkCount (bm : list Z) (tr : bool) (i e : Z) : option (list Z) :=
       end
   | _, _ => None
   end.
+
+(** [bm := Of(ps, opts...); walk the whole bitmap with NextOne; with PrevOne] *)
+Definition OfWalk (ps : list Z) (opt : option Z) : option (list Z * list Z) :=
+  match Of ps opt with
+  | None => None
+  | Some r =>
+      match IterNext r 0 (64 * zlen r), IterPrev r 0 (64 * zlen r) with
+      | Some a, Some b => Some (a, b)
+      | _, _ => None
+      end
+  end.
